@@ -225,7 +225,9 @@ func init() {
 			ruleWalkTotal(p, r, []walkerSpec{{"mxj.hasKey", nil}, {"mxj.hasKeyPath", nil}})
 		},
 		func(p *Prog, r *Report) { ruleWalkCollect(p, r, []string{"mxj.hasKey"}) },
-		func(p *Prog, r *Report) { ruleWalkNoEarlyExit(p, r, []string{"mxj.hasKey", "mxj.hasKeyPath", "mxj.valuesForKeyPath"}) },
+		func(p *Prog, r *Report) {
+			ruleWalkNoEarlyExit(p, r, []string{"mxj.hasKey", "mxj.hasKeyPath", "mxj.valuesForKeyPath"})
+		},
 		func(p *Prog, r *Report) {
 			ruleScanComplete(p, r, p.scopeFuncs(r, "SCAN.complete", []string{"mxj.Map.ValuesForKey", "mxj.Map.PathsForKey", "mxj.Map.ValuesForPath"}))
 		},
@@ -240,7 +242,9 @@ func init() {
 			}
 			rulePresence(p, r, func(n string) bool { return in[n] }, "key search")
 		},
-		func(p *Prog, r *Report) { rulePairCount(p, r, []string{"mxj.Map.ValuesForKey", "mxj.Map.oldValuesForPath"}) },
+		func(p *Prog, r *Report) {
+			rulePairCount(p, r, []string{"mxj.Map.ValuesForKey", "mxj.Map.oldValuesForPath"})
+		},
 		ruleOptSetterFor([]string{"mxj.fieldSep"}),
 		func(p *Prog, r *Report) { ruleOptScope(p, r, "Query") },
 		func(p *Prog, r *Report) { ruleIterFreshMap(p, r, []string{"mxj.getSubKeyMap"}) },
@@ -268,7 +272,9 @@ func init() {
 		func(p *Prog, r *Report) { ruleIterFresh(p, r, []string{"mxj.parsePath"}) },
 		func(p *Prog, r *Report) { rulePairCount(p, r, []string{"mxj.Map.oldValuesForPath"}) },
 		func(p *Prog, r *Report) { rulePathVerbatim(p, r, "mxj.parsePath") },
-		func(p *Prog, r *Report) { ruleWalkNoEarlyExit(p, r, []string{"mxj.getLeafNodes", "mxj.valuesForKeyPath"}) },
+		func(p *Prog, r *Report) {
+			ruleWalkNoEarlyExit(p, r, []string{"mxj.getLeafNodes", "mxj.valuesForKeyPath"})
+		},
 		func(p *Prog, r *Report) {
 			ruleWalkCurrent(p, r, p.scopeFuncs(r, "WALK.current", []string{"mxj.Map.ValuesForPath"}))
 		},
@@ -298,13 +304,17 @@ func init() {
 		"Structural clauses of UpdateValuesForPath: PAIR.update (writes only under the update key or the last segment tested equal to it; the stored value is the new value or a list rebuilt from old members and the new value; per block the counter increments equal the replacements; the rebuilt list is stored only when something was replaced; the sub-key conditions guarding a write are evaluated on the node that is written), PRESENCE.commaok (a member holding null under the key is present), WALK.progress (one segment per recursion, hand-over to the leaf function exactly at the last segment), INFL.filter, INFL.cover (new-value strings are split on fieldSep). Not decided: that navigation addresses the same nodes as ValuesForPath; the post-state query clause. OPT.scope (query group); ITER.fresh for the entries of getSubKeyMap."+levelNote,
 		nil,
 		rulePairUpdate,
-		func(p *Prog, r *Report) { ruleWalkNoEarlyExit(p, r, []string{"mxj.updateValuesForKeyPath", "mxj.updateValue"}) },
+		func(p *Prog, r *Report) {
+			ruleWalkNoEarlyExit(p, r, []string{"mxj.updateValuesForKeyPath", "mxj.updateValue"})
+		},
 		rulePredLocal, ruleOptWriters,
 		func(p *Prog, r *Report) { ruleOptScope(p, r, "Query") },
 		func(p *Prog, r *Report) { ruleIterFreshMap(p, r, []string{"mxj.getSubKeyMap"}) },
 		func(p *Prog, r *Report) { rulePathWhole(p, r, "mxj.Map.UpdateValuesForPath") },
 		func(p *Prog, r *Report) { ruleTypedValueUsed(p, r, "mxj.Map.UpdateValuesForPath") },
-		func(p *Prog, r *Report) { ruleWalkReentry(p, r, p.scopeFuncs(r, "WALK.reentry", []string{"mxj.Map.UpdateValuesForPath"})) },
+		func(p *Prog, r *Report) {
+			ruleWalkReentry(p, r, p.scopeFuncs(r, "WALK.reentry", []string{"mxj.Map.UpdateValuesForPath"}))
+		},
 		func(p *Prog, r *Report) {
 			in := map[string]bool{}
 			for _, f := range p.scopeFuncs(r, "PRESENCE.commaok", []string{"mxj.Map.UpdateValuesForPath"}) {
@@ -373,7 +383,9 @@ func init() {
 		ruleInflCastFlag, ruleTableNanInf, ruleInflCover, ruleCastParsers, ruleCastUnscreened, ruleOptWriters, ruleSeqCover, ruleSeqCastTag,
 		ruleOptSetterFor([]string{"mxj.castToInt", "mxj.castToFloat", "mxj.castToBool", "mxj.castNanInf", "mxj.checkTagToSkip"}),
 		func(p *Prog, r *Report) { ruleCastInput(p, r, []string{"mxj.xmlToMapParser", "mxj.xmlSeqToMapParser"}) },
-		func(p *Prog, r *Report) { ruleCastOpaque(p, r, []string{"mxj.xmlToMapParser", "mxj.xmlSeqToMapParser"}) })
+		func(p *Prog, r *Report) {
+			ruleCastOpaque(p, r, []string{"mxj.xmlToMapParser", "mxj.xmlSeqToMapParser"})
+		})
 
 	register("C15",
 		"Panic-obligation discharge over every core function reachable from the decoders, the string-argument APIs and the encoders: PANIC.idx (every index/slice operation is either proven in range by the Go compiler's prove pass or discharged by the zone analysis / a structural rule), PANIC.assert (every single-value type assertion has an operand whose dynamic type set is within the asserted type), PANIC.nil (nil map writes, nil dereferences of module results, method calls on nil errors, calls of nil function variables), PANIC.explicit, PANIC.overflow (an index or slice bound x + c is computed only where x is bounded above, so the zone analysis' mathematical integers are sound), PANIC.compare (== between two interface values only where one operand can hold comparable types only), WALK.reentry (a walker that calls itself with the same node does so only with a segment tested different from the one that triggered the call: no unbounded recursion on a key named like the wildcard), and ERR.path on the decoders. Not decided: stack exhaustion on deeply nested input, panics inside the standard library on well-typed arguments, termination of the bulk handlers, 'fails exactly when the tokenizer rejects'. OPT.setter for SetArraySize (the buffer capacity stays positive)."+levelNote,
@@ -396,7 +408,9 @@ func init() {
 			ruleEffectRecv(p, r, p.named("mxj.Map.Xml", "mxj.Map.XmlIndent", "mxj.MapSeq.Xml", "mxj.MapSeq.XmlIndent", "mxj.Map.Json", "mxj.Map.JsonIndent"), "EFFECT.recv")
 		},
 		func(p *Prog, r *Report) {
-			ruleFwdNames(p, r, func(n string) bool { return hasPrefixAny(n, "mxj.Maps.", "mxj.Map.", "mxj.MapSeq.", "mxj.AnyXml", "mxj.BeautifyXml") })
+			ruleFwdNames(p, r, func(n string) bool {
+				return hasPrefixAny(n, "mxj.Maps.", "mxj.Map.", "mxj.MapSeq.", "mxj.AnyXml", "mxj.BeautifyXml")
+			})
 		},
 		ruleTagProtocol, ruleTagProtocolSeq,
 		func(p *Prog, r *Report) {
